@@ -24,6 +24,7 @@ NEEDS = {
  "C20": "binary_interval_search on a range with a repeated value queried exactly at that value: early exit on equality",
 }
 NEEDS.update({
+ "C18": "one shared const Spline with at least two CROPPED segments evaluated by two threads in different cropped segments: start compensation cached in mutable members",
  "C02b": "SO3 log, small-angle series branch (rotation angle 8e-5..2e-4, double only): second series term with the wrong sign; relative error up to 6.6e-9 (tolerance 1e-9)",
  "C04b": "SE2 dr_expinv / dl_expinv, series branch (0 < |theta| < 1e-4) with non-zero translation: leading coefficient 1/24 instead of 1/12",
  "C07b": "std::vector of dynamic-dof elements with DIFFERENT run-time dofs (VectorXd of mixed sizes, nested vectors): tangent offset i*dof_i instead of the running sum",
